@@ -55,10 +55,23 @@ def decode_case(raw):
     cfg = gen.decode_cfg(cfgt)
     cfg["pool"] = True
     bs, nd = cfg["bs_kib"] * 1024, cfg["ndisks"]
-    return {"cfg": cfg, "init": [gen.decode_fs((0,) + tuple(t[1:]), bs, nd) for t in init],
+    case = {"cfg": cfg, "init": [gen.decode_fs((0,) + tuple(t[1:]), bs, nd) for t in init],
             "prog": [decode_step(sel, t, bs, nd) for sel, t in prog], "condition": CONDITIONS[cond % len(CONDITIONS)],
             "victims": damage.decode_devices(dints, cfg, 2, allow_silent=True), "seed": dseed, "command": cmdi % len(ALLCMDS),
             "pending": [gen.decode_fs(t, bs, nd) for _, t in prog[:3]]}
+    if ALLCMDS[case["command"]][0] == "touch":
+        # touch acts on time-stamps with a zero sub-second part: make them frequent, in synced files, in files changed or
+        # re-stamped since the last sync (whole seconds again) and in files the content file does not know
+        for i, s in enumerate(case["init"]):
+            if s.get("op") == "create" and (dseed >> i) & 1:
+                s["ns0"] = True
+        if dseed & 0x100:
+            case["condition"] = "pending"
+        case["pending"] = case["pending"] + [
+            {"op": "touch", "disk": (dseed >> 9) % nd, "fi": (dseed >> 11) % 8, "ns0": True},
+            {"op": "rewrite", "disk": (dseed >> 14) % nd, "fi": (dseed >> 16) % 8, "cseed": dseed, "ns0": bool(dseed & 0x80000)},
+            {"op": "create", "disk": (dseed >> 9) % nd, "name": gen.name_of(dseed >> 12), "size": gen.size_of(dseed >> 5, bs), "cseed": dseed, "ns0": True}][:1 + (dseed >> 6) % 3]
+    return case
 
 
 def strategy(tier):
@@ -187,6 +200,17 @@ def run_case(case, ctx):
                         unrec.add(t[2] + b"/" + t[3])
                 elif t[0] in (b"hardlink_fixed", b"symlink_fixed", b"dir_fixed", b"collision") and len(t) >= 3:
                     named.add(t[1] + b"/" + t[2])
+            if run.rc != 0 and not run.summary("exit"):
+                # fix stopped with a fatal error in the middle of a stripe (no summary): the files of that stripe it had
+                # named in error: tags were open for writing and could not be reported any more
+                last = None
+                for t in run.tags:
+                    if t[0] in (b"error", b"fixed", b"parity_error", b"parity_fixed") and len(t) >= 2 and t[1].isdigit():
+                        last = t[1]
+                for t in run.tags:
+                    if t[0] == b"error" and len(t) >= 4 and t[1] == last:
+                        named.add(t[2] + b"/" + t[3])
+                classes.add("fix aborted by a fatal error")
             pfixed = {}
             for t in run.tags:
                 if t[0] == b"parity_fixed" and len(t) >= 3:
